@@ -71,10 +71,11 @@ fn item(rng: &mut Rng, out: &mut Vec<Asm>, lay: &Lay, j: usize, internal: bool, 
         5 | 6 => { addr(out, T[0], lay.asset_off); idp(out, T[1], rng); out.push(Asm::I(op::bal(d, T[0], T[1]))); }
         7 | 8 => { idp(out, T[0], rng); out.push(Asm::I(op::movi(T[1], if fault && rng.bool() { 0 } else { rng.range(1, 20) as u32 }))); addr(out, T[2], lay.asset_off);
                    out.push(Asm::I(op::tr(T[0], T[1], T[2]))); }
-        9 => { addr(out, T[0], lay.addr_off); out.push(Asm::I(op::movi(T[1], 77))); out.push(Asm::I(op::movi(T[2], 3))); addr(out, T[3], lay.asset_off);
+        9 if rng.chance(1, 3) => { addr(out, T[0], lay.addr_off); out.push(Asm::I(op::movi(T[1], 77))); out.push(Asm::I(op::movi(T[2], 3))); addr(out, T[3], lay.asset_off);
                out.push(Asm::I(op::tro(T[0], T[1], T[2], T[3]))); }     // output 77 does not exist: the debit is attempted first
         10 => { addr(out, T[0], lay.addr_off); addr(out, T[1], lay.blob_off); out.push(Asm::I(op::movi(T[2], rng.below(16) as u32))); out.push(Asm::I(op::movi(T[3], rng.below(5) as u32)));
                 out.push(Asm::I(op::smo(T[0], T[1], T[2], T[3]))); }
+        9 => out.push(Asm::I(op::noop())),
         11 => { // storage instruction (refused outside a contract)
                 addr(out, T[0], lay.key_off + 32 * rng.below(3) as usize);
                 match rng.below(4) { 0 => out.push(Asm::I(op::sww(T[0], d, RegId::ONE))), 1 => out.push(Asm::I(op::srw(d, d + 1, T[0], 0))),
@@ -401,8 +402,8 @@ fn main() {
     } else {
         let mut rng = Rng::new(args.seed ^ 0x30);
         process_predicates(&mut out, &mut rng);
-        let n_hand = args.scale(250, 4000);
-        let n_gen = args.scale(80, 1500);
+        let n_hand = args.scale(140, 4000);
+        let n_gen = args.scale(50, 1500);
         for i in 0..n_hand { let s = hand_scn(&mut rng); process_tx(&mut out, &s, i); }
         for i in 0..n_gen { let s = generated_scn(&mut rng); process_tx(&mut out, &s, n_hand + i); }
     }
